@@ -291,6 +291,9 @@ fn check_read_faults(ctx: &mut Ctx, w: &mut Witnesses) {
     let nl = if ctx.thorough() || w.only.is_some() { 14 } else { 8 };
     let lines = input_lines(nl);
     let mut job = 0;
+    // a run that does not end costs the full watchdog time (and leaks its threads): after two of
+    // them the family stops, the violation is already established
+    let mut hangs = 0;
     for (q, mode, agg) in [
         ("* | json", "logfmt", false),
         ("* | json", "json", false),
@@ -307,6 +310,10 @@ fn check_read_faults(ctx: &mut Ctx, w: &mut Witnesses) {
                 if job % ctx.nshards != ctx.shard || w.skip(&key) {
                     continue;
                 }
+                if hangs >= 2 {
+                    ctx.case("read-fault", &key, "skip", json!({"why": "two earlier cases of this family did not end; not run"}));
+                    continue;
+                }
                 let gate = Gate::default();
                 for l in &lines[..j] {
                     gate.release(l);
@@ -321,6 +328,7 @@ fn check_read_faults(ctx: &mut Ctx, w: &mut Witnesses) {
                 let o = match run.wait(Duration::from_secs(30)) {
                     None => {
                         ctx.case("read-fault", &key, "viol", json!({"class": "C17/no-termination-finite-input", "what": "read error: process() did not return within 30 s", "case": info}));
+                        hangs += 1;
                         continue;
                     }
                     Some(o) => o,
